@@ -127,6 +127,7 @@ func init() {
 		c.Check("C03/probe/scaled-deadline", "the per-probe deadline is ProbeInterval x (health score + 1), and the score is clamped to [0, max-1] (C19), so the deadline is bounded by AwarenessMaxMultiplier x ProbeInterval", sc.Decl.Pos(), okScale, "ScaleTimeout does not return timeout * (score + 1)")
 		checkAwareness(c)
 
+		checkFallbackDeadline(c, "C03")
 		checkTimerCancel(c, "C03")
 		// 6. live peers stay in the probe list: only old dead/left records are moved to the reaped tail
 		checkReaper(c, "C03")
